@@ -167,6 +167,60 @@ class Gen:
             if c not in colty:
                 return c
 
+    def unique_cols(self, script):
+        """columns of the script's result that are known to hold pairwise distinct, non-null values (so that an order
+        containing one of them is total).  None = nothing is known about the source (no data attached: no constraint)."""
+        memo = self.__dict__.setdefault("_uniq", {})
+        key = id(script)
+        if key in memo:
+            return memo[key][1]
+        op = script["op"]
+        if op == "table":
+            t = self.tables.get(script["name"])
+            if t is None:
+                u = None
+            else:
+                u = set()
+                for j, (c, _) in enumerate(t["spec"]):
+                    vals = [r[j] for r in t["rows"]]
+                    if all(v is not None for v in vals) and len(set(vals)) == len(vals):
+                        u.add(c)
+        else:
+            u = self.unique_cols(script["src"])
+            if u is not None:
+                if op == "extend":
+                    u = u - set(script["ops"])
+                elif op == "project":
+                    gb = script.get("group_by") or []
+                    u = {gb[0]} if len(gb) == 1 and gb[0] in u else set()
+                elif op == "select_columns":
+                    u = u & set(script["columns"])
+                elif op == "drop_columns":
+                    u = u - set(script["columns"])
+                elif op == "rename_columns":          # map: new -> old
+                    olds = set(script["map"].values())
+                    u = {c for c in u if c not in olds} | {n for n, o in script["map"].items() if o in u}
+                elif op == "map_columns":             # map: old -> new
+                    u = {script["map"].get(c, c) for c in u}
+                elif op in ("select_rows", "order_rows"):
+                    u = set(u)
+                else:                                  # natural_join, concat_rows: rows are multiplied / repeated
+                    u = set()
+        memo[key] = (script, u)                        # keep the script alive so that id() stays unambiguous
+        return u
+
+    def totalise(self, script, order, keys, part=()):
+        """extend the sort keys by a unique column when they (with the partition columns) do not contain one;
+        returns False when no such column exists"""
+        u = self.unique_cols(script)
+        if u is None or (set(keys) | set(part)) & u:
+            return True
+        cand = [c for c in order if c in u and c not in part and c not in keys]
+        if not cand:
+            return False
+        keys.append(cand[0])
+        return True
+
     def table(self, name=None):
         name = name or self.rng.choice(sorted(self.tables))
         t = self.tables[name]
@@ -222,8 +276,8 @@ class Gen:
                 if not rest:
                     return None
                 ob = rng.sample(rest, rng.randint(1, min(2, len(rest))))
-                if self.total_orders and "uid" in colty and "uid" not in ob and "uid" not in part:
-                    ob.append("uid")
+                if self.total_orders and not self.totalise(script, order, ob, part):
+                    return None                     # ties: an order-sensitive window function would be under-determined
                 rev = [c for c in ob if rng.random() < 0.3]
                 fns = WINDOW_ORDERED
             else:
@@ -294,10 +348,11 @@ class Gen:
             return {"op": "rename_columns", "src": script, "map": {v: k for k, v in m.items()}}, colty2, order2
         if kind == "order_rows":
             cs = rng.sample(order, rng.randint(1, min(3, len(order))))
-            if self.total_orders and "uid" in colty and "uid" not in cs:
-                cs.append("uid")
+            total = (not self.total_orders) or self.totalise(script, order, cs)
             rev = [c for c in cs if rng.random() < 0.3]
             lim = rng.choice([None, None, 1, 2, 3, 5])
+            if not total:
+                lim = None                          # ties: which rows a limit keeps would be under-determined
             return {"op": "order_rows", "src": script, "columns": cs, "reverse": rev, "limit": lim}, colty, order
         if kind == "natural_join":
             b, bty, border = self.pipeline(rng.randint(0, 1))
@@ -401,6 +456,10 @@ class StepBuildError(Exception):
     """the builder rejected a step in the step-by-step run"""
 
 
+class StepEvalError(Exception):
+    """an executor failed while evaluating a sub-branch in the step-by-step run (not a builder rejection)"""
+
+
 def eval_stepwise(script, tables, frames, memo=None):
     """materialise after every step: each step is applied to a description of the previous step's actual result"""
     memo = {} if memo is None else memo
@@ -414,12 +473,19 @@ def eval_stepwise(script, tables, frames, memo=None):
         names = {"cur": cur}
 
         def build_sub(b):
-            fb = eval_stepwise(b, tables, frames, memo)
+            # the other branch of a join / concat is itself run step by step; an executor error while
+            # EVALUATING that branch is not a rejection by the builder and must not be reported as one
+            try:
+                fb = eval_stepwise(b, tables, frames, memo)
+            except (StepBuildError, StepEvalError):
+                raise
+            except Exception as e:
+                raise StepEvalError(f"{type(e).__name__}: {e}") from e
             names["other"] = fb
             return TableDescription(table_name="other", column_names=list(fb.columns))
         try:
             ops = apply_step(TableDescription(table_name="cur", column_names=list(cur.columns)), script, build_sub)
-        except StepBuildError:
+        except (StepBuildError, StepEvalError):
             raise
         except Exception as e:
             raise StepBuildError(f"{type(e).__name__}: {e}") from e
